@@ -28,6 +28,11 @@ type VM struct {
 
 	// moduleCodeFinder - HOWTO get the source code of a module
 	moduleCodeFinder ModuleCodeFinder
+
+	// errCallStack - the call frames that were active at the moment an error was raised.
+	// Frames are popped while the error travels up (so that scopes, 其 and the current module
+	// of the callers stay correct), this snapshot keeps them for the error report.
+	errCallStack []*CallFrame
 }
 
 type ElementMap = map[string]Element
@@ -121,6 +126,36 @@ func (vm *VM) PopCallFrame() {
 
 func (vm *VM) GetCallStack() []*CallFrame {
 	return vm.callStack[:vm.csCount]
+}
+
+// PopCallFrameOnError - leave a call frame because of an error: remember the whole call
+// stack of the (innermost) place where the error arose, then pop the frame.
+func (vm *VM) PopCallFrameOnError(err error) {
+	// loop signals (继续循环 / 结束循环) are control flow, not errors to be reported
+	isLoopSignal := false
+	if sig, ok := err.(*zerr.Signal); ok && sig.SigType != zerr.SigTypeException {
+		isLoopSignal = true
+	}
+	if vm.errCallStack == nil && !isLoopSignal {
+		vm.errCallStack = append([]*CallFrame{}, vm.callStack[:vm.csCount]...)
+	}
+	if vm.csCount > 0 {
+		vm.PopCallFrame()
+	}
+}
+
+// ClearErrorCallStack - the pending error has been handled
+func (vm *VM) ClearErrorCallStack() {
+	vm.errCallStack = nil
+}
+
+// GetErrorCallStack - call frames active when the pending error arose
+// (the current call stack when no frame has been left yet)
+func (vm *VM) GetErrorCallStack() []*CallFrame {
+	if vm.errCallStack != nil {
+		return vm.errCallStack
+	}
+	return vm.GetCallStack()
 }
 
 func (vm *VM) GetCurrentModule() *Module {
